@@ -382,19 +382,80 @@ def doc_defaults():
     return out, order
 
 
+def _startswith_const(node, var):
+    """`<var>.startswith('<const>')` -> const, else None."""
+    if isinstance(node, ast.Call) and isinstance(node.func, ast.Attribute) and node.func.attr == 'startswith' \
+            and isinstance(node.func.value, ast.Name) and node.func.value.id == var and len(node.args) == 1 \
+            and isinstance(node.args[0], ast.Constant) and isinstance(node.args[0].value, str) and not node.keywords:
+        return node.args[0].value
+    return None
+
+
+def signal_rules():
+    """How datatypes.py decides what a signal is.
+
+    SIGNUMS = [getattr(signal, k) for k in dir(signal) if COND], COND being
+    k.startswith(P) optionally `and not k.startswith(Q)`; and the guard of
+    signal_number(): `if num is None [or name.startswith(G)]`.
+    Returns (P, Q or None, G or None)."""
+    mod = _parse('supervisor/datatypes.py')
+    rule = None
+    for n in mod.body:
+        if isinstance(n, ast.Assign) and len(n.targets) == 1 and isinstance(n.targets[0], ast.Name) \
+                and n.targets[0].id == 'SIGNUMS':
+            v = n.value
+            _need(isinstance(v, ast.ListComp) and len(v.generators) == 1, 'SIGNUMS is not a single list comprehension')
+            g = v.generators[0]
+            _need(isinstance(g.target, ast.Name) and ast.dump(g.iter) == ast.dump(ast.parse('dir(signal)').body[0].value)
+                  and ast.dump(v.elt) == ast.dump(ast.parse('getattr(signal, %s)' % g.target.id).body[0].value)
+                  and len(g.ifs) == 1, 'SIGNUMS: unexpected comprehension')
+            var = g.target.id
+            cond = g.ifs[0]
+            if _startswith_const(cond, var) is not None:
+                rule = (_startswith_const(cond, var), None)
+            else:
+                _need(isinstance(cond, ast.BoolOp) and isinstance(cond.op, ast.And) and len(cond.values) == 2
+                      and _startswith_const(cond.values[0], var) is not None
+                      and isinstance(cond.values[1], ast.UnaryOp) and isinstance(cond.values[1].op, ast.Not)
+                      and _startswith_const(cond.values[1].operand, var) is not None,
+                      'SIGNUMS: unexpected filter condition')
+                rule = (_startswith_const(cond.values[0], var), _startswith_const(cond.values[1].operand, var))
+    _need(rule is not None, 'datatypes.SIGNUMS not found')
+    fn = [n for n in mod.body if isinstance(n, ast.FunctionDef) and n.name == 'signal_number']
+    _need(len(fn) == 1, 'signal_number not found')
+    guard = 'absent'
+    for n in ast.walk(fn[0]):
+        if isinstance(n, ast.If):
+            t = n.test
+            isnone = ast.dump(ast.parse('num is None').body[0].value)
+            if ast.dump(t) == isnone:
+                guard = None
+            elif isinstance(t, ast.BoolOp) and isinstance(t.op, ast.Or) and len(t.values) == 2 \
+                    and ast.dump(t.values[0]) == isnone and _startswith_const(t.values[1], 'name') is not None:
+                guard = _startswith_const(t.values[1], 'name')
+    _need(guard != 'absent', 'signal_number: the `num is None` test was not found')
+    return rule[0], rule[1], guard
+
+
 def signal_table():
-    """name -> number for the signals of the running CPython (datatypes.signal_number
-    resolves names with getattr(signal, ...)); platform data, not repo data."""
+    """(names, signums): name -> number for every int attribute of the running
+    CPython's signal module whose name starts with SIG (what getattr(signal, name)
+    can return: platform data), and the numbers datatypes.SIGNUMS holds
+    according to the filter read from the source."""
     import signal
-    out = []
+    pref, excl, guard = signal_rules()
+    _need(pref == 'SIG', 'SIGNUMS: unexpected prefix %r' % pref)
+    names, nums = [], []
     for k in sorted(dir(signal)):
-        # like datatypes.SIGNUMS: every attribute whose name starts with SIG,
-        # which includes the handler / sigmask constants SIG_DFL SIG_IGN SIG_BLOCK ...
         if k.startswith('SIG'):
             v = getattr(signal, k)
             if isinstance(v, int):
-                out.append((k, int(v)))
-    return out
+                names.append((k, int(v)))
+        if k.startswith(pref) and not (excl is not None and k.startswith(excl)):
+            v = getattr(signal, k)
+            if isinstance(v, int):
+                nums.append(int(v))
+    return names, sorted(set(nums)), guard
 
 
 def generate():
@@ -428,7 +489,11 @@ def generate():
     o.append('Definition byte_size_suffixes : list (string * Z) := [%s].' % '; '.join('(%s, %d)' % (_cstr(a), b) for a, b in dt['byte_size']))
     o.append('Definition name_forbidden_chars : string := %s.\n' % _cstr(dt['name_forbidden']))
     o.append('(* signal names of the running CPython (platform data) *)')
-    o.append('Definition signal_names : list (string * Z) :=\n  [%s].\n' % '; '.join('(%s, %d)' % (_cstr(a), b) for a, b in sig))
+    o.append('Definition signal_names : list (string * Z) :=\n  [%s].\n' % '; '.join('(%s, %d)' % (_cstr(a), b) for a, b in sig[0]))
+    o.append('(* the numbers in datatypes.SIGNUMS, by the filter read from the source *)')
+    o.append('Definition signal_numbers : list Z := [%s].' % '; '.join(str(x) for x in sig[1]))
+    o.append('(* signal_number() rejects resolved names with this prefix (None: no such guard) *)')
+    o.append('Definition signal_name_guard : option string := %s.\n' % ('None' if sig[2] is None else 'Some %s' % _cstr(sig[2])))
     o.append('(* docs/configuration.rst: section -> option -> text of the *Default* line (markup stripped) *)')
     rows = []
     for sec in order:
